@@ -156,11 +156,19 @@ theorem inv_stepC {s s' : State} {e : CEv} (hi : Inv s) (h : step s (.c e) = som
     exact queryOK_mono hmono hsn.1 (hi.queries q hq')
 
 theorem mem_setQ {qs : List Query} {q x : Query} (h : x ∈ setQ qs q) : x = q ∨ x ∈ qs := by
-  unfold setQ at h
-  rcases List.mem_map.mp h with ⟨y, hy, hxy⟩
-  by_cases hc : (y.id == q.id) = true
-  · simp [hc] at hxy; exact Or.inl hxy.symm
-  · simp [hc] at hxy; subst hxy; exact Or.inr hy
+  induction qs with
+  | nil => simp [setQ] at h
+  | cons y r ih =>
+    unfold setQ at h
+    split at h
+    · rcases List.mem_cons.mp h with h | h
+      · exact Or.inl h
+      · exact Or.inr (List.mem_cons_of_mem _ h)
+    · rcases List.mem_cons.mp h with h | h
+      · exact Or.inr (by simp [h])
+      · rcases ih h with h1 | h1
+        · exact Or.inl h1
+        · exact Or.inr (List.mem_cons_of_mem _ h1)
 
 theorem findQ_mem {qs : List Query} {id : Nat} {q : Query} (h : findQ qs id = some q) : q ∈ qs := by
   unfold findQ at h
